@@ -23,7 +23,7 @@ import tracecheck
 KFS = ["KF_ContractUtxoUnbound", "KF_FailedStatusAccepted", "KF_NestedUseUncounted"]
 PROPOSED = os.path.join(vp.VERIF, "findings", "C09.known")
 MUST_REJECT = ["read_ver", "write_drop", "write_add", "write_val", "write_dup", "write_app", "limit_below", "fee_below", "amt_req",
-               "amt_out", "ev_alter", "ev_drop", "ctr_alter", "redirect", "cout_drop", "cin_omit", "cin_extra"]
+               "amt_out", "ev_alter", "ev_drop", "ctr_alter", "redirect", "cout_drop", "cout_less", "cout_freeze", "cin_omit", "cin_extra"]
 
 
 def known():
@@ -172,7 +172,7 @@ def check(run):
     # programs that write several keys next to events and transfers (whose records share the write set with the contract's own
     # writes), and the tamperings of the write / read LIST: a record repeated in place of another one, appended, swapped
     lists = {"MaxSteps": 5, "StepOps": '{"get", "put", "del", "xfer", "emit"}',
-             "TamperKinds": '{"none", "write_dup", "write_swap", "write_app", "read_dup", "write_drop", "write_val", "ev_drop", "ctr_alter", "cout_drop"}'}
+             "TamperKinds": '{"none", "write_dup", "write_swap", "write_app", "read_dup", "write_drop", "write_val", "ev_drop", "ctr_alter", "cout_drop", "cout_less", "cout_freeze"}'}
     if quick:
         plans = [(2400, full), (600, short), (600, rich), (900, lists)]
         mcs = [("MC_Contract.cfg", 600), ("MC_Contract_arg.cfg", 300)]
@@ -251,7 +251,7 @@ def check(run):
     }
     for tk in MUST_REJECT:
         n = tot.get("tk_%s_reject" % tk, 0)
-        if tk in ("redirect", "cin_omit", "cout_drop") and "KF_ContractUtxoUnbound" in kf:
+        if tk in ("redirect", "cin_omit", "cout_drop", "cout_less", "cout_freeze") and "KF_ContractUtxoUnbound" in kf:
             n += tot.get("tk_%s_admit" % tk, 0)      # the known deviation admits them; the case was exercised all the same
         req["tampering_%s" % tk] = (n, 5)
     for tk in ("arg", "read_drop", "req_drop", "read_dup"):
